@@ -407,22 +407,47 @@ func closeFnDeferredByCallers(f *ast.File, helper string) bool {
 	return n > 0 && n == good && total == n
 }
 
-// pingDefersCancel: net/client/client.go Client.Ping binds the cancel closure AsyncPing returns and defers it.
+// pingDefersCancel: every library function that waits for a pong — net/client/client.go Client.Ping and the transports'
+// own Conn.Ping (udp/client, tcp/client; optional: without one, Client.Ping is promoted) — binds the cancel closure that
+// AsyncPing / asyncPing returns and defers it.
 func pingDefersCancel(repo string) bool {
-	_, f := parseFile(repo, "net/client/client.go")
-	fd := funcDecl(f, "Client", "Ping")
-	name := ""
-	for _, st := range fd.Body.List {
-		if as, ok := st.(*ast.AssignStmt); ok && len(as.Rhs) == 1 && len(as.Lhs) == 2 {
-			if c, ok := as.Rhs[0].(*ast.CallExpr); ok && strings.HasSuffix(exprStr(c.Fun), ".AsyncPing") {
-				name = exprStr(as.Lhs[0])
+	one := func(fd *ast.FuncDecl) bool {
+		name := ""
+		for _, st := range fd.Body.List {
+			if as, ok := st.(*ast.AssignStmt); ok && len(as.Rhs) == 1 && len(as.Lhs) == 2 {
+				if c, ok := as.Rhs[0].(*ast.CallExpr); ok && strings.HasSuffix(strings.ToLower(exprStr(c.Fun)), ".asyncping") {
+					name = exprStr(as.Lhs[0])
+				}
+			}
+			if df, ok := st.(*ast.DeferStmt); ok && name != "" && exprStr(df.Call.Fun) == name {
+				return true
 			}
 		}
-		if df, ok := st.(*ast.DeferStmt); ok && name != "" && exprStr(df.Call.Fun) == name {
+		return false
+	}
+	_, f := parseFile(repo, "net/client/client.go")
+	if !one(funcDecl(f, "Client", "Ping")) {
+		return false
+	}
+	for _, cf := range []string{"udp/client/conn.go", "tcp/client/conn.go"} {
+		_, f := parseFile(repo, cf)
+		fd := optFuncDecl(f, "Conn", "Ping")
+		if fd == nil {
+			continue
+		}
+		// either a pure wrapper of Client.Ping or a waiter of its own that defers the closure
+		calls := false
+		ast.Inspect(fd.Body, func(n ast.Node) bool {
+			if c, ok := n.(*ast.CallExpr); ok && strings.HasSuffix(strings.ToLower(exprStr(c.Fun)), ".asyncping") {
+				calls = true
+			}
 			return true
+		})
+		if calls && !one(fd) {
+			return false
 		}
 	}
-	return false
+	return true
 }
 
 // mutexMapShape recognises udp/client/mutexmap.go (Lock inserts `m.ma[key] = e`, counts; Unlock decrements and
